@@ -77,10 +77,24 @@ func sameLoad(a, b ssa.Value) bool {
 
 // validGuarded: block executes only when v.IsValid() returned true (or v.Kind() != Invalid).
 func validGuarded(b *ssa.BasicBlock, v ssa.Value) bool {
+	for d := b; d != nil; d = d.Idom() {
+		if _, ok := reachedOnlyByKindEdges(d, v); ok {
+			return true
+		}
+	}
 	return hasGuard(b, func(g guard) bool {
 		c, ok := g.cond.(*ssa.Call)
 		if ok && g.pol && calleeFullName(c) == "(reflect.Value).IsValid" && valueAlias(c.Call.Args[0], v) {
 			return true
+		}
+		// (also below: a `case K1, K2:` arm reached only by Kind() == Ki edges)
+		// v.Kind() == K with K != Invalid: the zero Value has kind Invalid
+		if op, x, y, isCmp := asCmp(g.cond); isCmp && ((op == token.EQL && g.pol) || (op == token.NEQ && !g.pol)) {
+			if kc, ok := x.(*ssa.Call); ok && calleeFullName(kc) == "(reflect.Value).Kind" && valueAlias(kc.Call.Args[0], v) {
+				if k, ok := constInt(y); ok && k != 0 {
+					return true
+				}
+			}
 		}
 		return false
 	})
@@ -193,9 +207,21 @@ func zeroValueSource(v ssa.Value, d int) string {
 		return ""
 	}
 	switch x := v.(type) {
+	case *ssa.Parameter:
+		if why, ok := reflectZeroParams[x]; ok {
+			return why
+		}
 	case *ssa.Call:
 		name := calleeFullName(x)
 		switch name {
+		case "(reflect.Value).Elem":
+			// Elem of a nil pointer is the zero Value. Armed for the "dereference after a kind test" idiom: the receiver
+			// is known to be of pointer kind (dominating Kind() == reflect.Ptr), is not a freshly made pointer, and
+			// nothing established that it is non-nil (IsNil() false, or a call that instantiates it)
+			recv := x.Call.Args[0]
+			if kindPtrGuarded(x.Block(), recv) && !freshPointerValue(recv, 0) && !nilGuardedFalse(x.Block(), recv) && !instantiatedBefore(x, recv) {
+				return "Value.Elem() of a possibly nil pointer"
+			}
 		case "reflect.ValueOf":
 			if possiblyNilIface(x.Call.Args[0]) {
 				return "reflect.ValueOf(" + argDesc(x.Call.Args[0]) + ") of a possibly nil interface"
@@ -223,6 +249,9 @@ func zeroValueSource(v ssa.Value, d int) string {
 			// an incoming edge taken only after e.IsValid() held does not carry a zero Value
 			p := x.Block().Preds[i]
 			if validGuarded(p, e) || edgeIsValidTrue(p, x.Block(), e) {
+				continue
+			}
+			if _, ok := kindTrueEdge(p, x.Block(), e); ok {
 				continue
 			}
 			if s := zeroValueSource(e, d+1); s != "" {
@@ -291,6 +320,34 @@ func srcNonNilGuarded(b *ssa.BasicBlock, v ssa.Value) bool {
 
 // ruleReflectZero applies the typestate to the given functions with a frozen exception table keyed by construct.
 func ruleReflectZero(w *World, r *Report, rule string, fns []*ssa.Function, exceptions map[string]string) int {
+	// pre-pass: which parameters can be handed a zero Value by a caller in the set (two rounds: chains of helpers)
+	reflectZeroParams = map[*ssa.Parameter]string{}
+	inSet := map[*ssa.Function]bool{}
+	for _, f := range fns {
+		inSet[origin(f)] = true
+	}
+	for round := 0; round < 2; round++ {
+		for _, fn := range fns {
+			instrs(fn, func(in ssa.Instruction) {
+				c, ok := in.(ssa.CallInstruction)
+				if !ok {
+					return
+				}
+				sc := staticCallee(c)
+				if sc == nil || !inSet[origin(sc)] {
+					return
+				}
+				for i, a := range c.Common().Args {
+					if i >= len(origin(sc).Params) || !isReflectValue(a.Type()) {
+						continue
+					}
+					if what := zeroValueSource(a, 0); what != "" && !validGuarded(in.Block(), a) && !srcNonNilGuarded(in.Block(), a) {
+						reflectZeroParams[origin(sc).Params[i]] = what + " (passed by " + w.fname(origin(fn)) + ")"
+					}
+				}
+			})
+		}
+	}
 	n := 0
 	seen := map[token.Pos]bool{}
 	for _, fn := range fns {
@@ -452,4 +509,138 @@ func edgeCanAddrTrue(p, succ *ssa.BasicBlock, v ssa.Value) bool {
 		return false
 	}
 	return p.Succs[0] == succ
+}
+
+// reflectZeroParams: parameters of module functions that receive a possibly-zero reflect.Value at some call site
+// (filled by ruleReflectZero for the function set it is given).
+var reflectZeroParams = map[*ssa.Parameter]string{}
+
+// nilGuardedFalse: block b executes only when v.IsNil() returned false.
+func nilGuardedFalse(b *ssa.BasicBlock, v ssa.Value) bool {
+	// an `if v.IsNil() { v.Set(new) }` before the dereference: nil-ness was considered and repaired
+	for d := b; d != nil; d = d.Idom() {
+		if iff, ok := d.Instrs[len(d.Instrs)-1].(*ssa.If); ok && d != b {
+			if c, ok := iff.Cond.(*ssa.Call); ok && calleeFullName(c) == "(reflect.Value).IsNil" && valueAlias(c.Call.Args[0], v) {
+				t := d.Succs[0]
+				for _, in := range t.Instrs {
+					if sc, ok := in.(*ssa.Call); ok && calleeFullName(sc) == "(reflect.Value).Set" {
+						return true
+					}
+				}
+			}
+		}
+	}
+	return hasGuard(b, func(g guard) bool {
+		c, ok := g.cond.(*ssa.Call)
+		return ok && !g.pol && calleeFullName(c) == "(reflect.Value).IsNil" && valueAlias(c.Call.Args[0], v)
+	})
+}
+
+// kindPtrGuarded: b executes only when v.Kind() == reflect.Ptr held.
+func kindPtrGuarded(b *ssa.BasicBlock, v ssa.Value) bool {
+	for d := b; d != nil; d = d.Idom() {
+		if ks, ok := reachedOnlyByKindEdges(d, v); ok {
+			for _, k := range ks {
+				if k == 22 { // reflect.Ptr among the kinds of a `case` arm
+					return true
+				}
+			}
+		}
+	}
+	return hasGuard(b, func(g guard) bool {
+		op, x, y, ok := asCmp(g.cond)
+		if !ok {
+			return false
+		}
+		c, ok := x.(*ssa.Call)
+		if !ok || calleeFullName(c) != "(reflect.Value).Kind" || !valueAlias(c.Call.Args[0], v) {
+			return false
+		}
+		k, ok := constInt(y)
+		if !ok || k != 22 { // reflect.Ptr
+			return false
+		}
+		return (op == token.EQL && g.pol) || (op == token.NEQ && !g.pol)
+	})
+}
+
+// freshPointerValue: v was made by reflect.New / Value.Addr (never a nil pointer).
+func freshPointerValue(v ssa.Value, d int) bool {
+	if d > 4 {
+		return false
+	}
+	switch x := v.(type) {
+	case *ssa.Call:
+		n := calleeFullName(x)
+		return n == "reflect.New" || n == "(reflect.Value).Addr"
+	case *ssa.Phi:
+		for _, e := range x.Edges {
+			if !freshPointerValue(e, d+1) {
+				return false
+			}
+		}
+		return len(x.Edges) > 0
+	}
+	return false
+}
+
+// instantiatedBefore: a call that receives recv and may set it (a module helper such as instantiateIfNeeded) dominates in.
+func instantiatedBefore(in ssa.Instruction, recv ssa.Value) bool {
+	found := false
+	instrs(in.Parent(), func(o ssa.Instruction) {
+		c, ok := o.(*ssa.Call)
+		if !ok || found {
+			return
+		}
+		sc := staticCallee(c)
+		if sc == nil || !strings.Contains(strings.ToLower(sc.Name()), "instantiate") {
+			return
+		}
+		for _, a := range c.Call.Args {
+			if valueAlias(a, recv) && instrDominates(c, in) {
+				found = true
+			}
+		}
+	})
+	return found
+}
+
+// kindTrueEdge: block p ends in `if v.Kind() == K` (K != Invalid) and succ is the arm taken when it holds; returns K.
+func kindTrueEdge(p, succ *ssa.BasicBlock, v ssa.Value) (int64, bool) {
+	iff, ok := p.Instrs[len(p.Instrs)-1].(*ssa.If)
+	if !ok {
+		return 0, false
+	}
+	op, x, y, isCmp := asCmp(iff.Cond)
+	if !isCmp {
+		return 0, false
+	}
+	kc, ok := x.(*ssa.Call)
+	if !ok || calleeFullName(kc) != "(reflect.Value).Kind" || !valueAlias(kc.Call.Args[0], v) {
+		return 0, false
+	}
+	k, ok := constInt(y)
+	if !ok || k == 0 {
+		return 0, false
+	}
+	if (op == token.EQL && p.Succs[0] == succ) || (op == token.NEQ && p.Succs[1] == succ) {
+		return k, true
+	}
+	return 0, false
+}
+
+// reachedOnlyByKindEdges: every predecessor edge of b is a "Kind() == K" true edge (a `case K1, K2:` arm); returns the kinds.
+func reachedOnlyByKindEdges(b *ssa.BasicBlock, v ssa.Value) ([]int64, bool) {
+	if len(b.Preds) == 0 {
+		return nil, false
+	}
+	var ks []int64
+	for _, p := range b.Preds {
+		k, ok := kindTrueEdge(p, b, v)
+		if !ok {
+			return nil, false
+		}
+		ks = append(ks, k)
+	}
+	return ks, true
 }
